@@ -212,7 +212,7 @@ def opAtad (j : Json) : Option Json := do
   if k = 0 then
     let b := vecOf bl n
     let x := vecOf xl n
-    let xm := s.solve (luSolveVec Gw) (luSolveVec Gd) b
+    let xm : Vec α n := freeze (s.solve (luSolveVec Gw) (luSolveVec Gd) b)
     let lx := s.lhsApply x
     let lxm := s.lhsApply xm
     let acc := s.accuracy (fun v => lnorm (List.ofFn v)) x b
